@@ -256,3 +256,23 @@ prop("C12",
      assumptions=["decimal text -> f32 parsing of --temp/--ai1/--ai2 is Rust's (the harness renders the voltage with Rust's shortest round-trip formatting and hands the bit pattern to the model)",
                   "time_taken and log output are not compared"],
      )
+
+prop("C17",
+     modules=["Emu2a.Props.C17", "Emu2a.Props.C17x.Forms"],
+     theorems=["Emu2a.C17.handle_good", "Emu2a.C17.handle_ok", "Emu2a.C17.run_ok", "Emu2a.C17.render_ok", "Emu2a.C17.draw_input_ok",
+               "Emu2a.C17.inputWidth_ge", "Emu2a.C17.parseCmd_wf", "Emu2a.C17.reg_dec_spec", "Emu2a.C17.key_dismisses_note",
+               "Emu2a.C17.ctrl_keys", "Emu2a.C17.ctrl_other", "Emu2a.C17.enter_is_clock", "Emu2a.C17.enter_submits",
+               "Emu2a.C17.exec_table", "Emu2a.C17.next_is_clocks", "Emu2a.C17.handleEvent_good", "Emu2a.C17.session_never_panics",
+               "Emu2a.C17.session_refines_spec", "Emu2a.C17.cmd_forms_agree"],
+     harness="c17",
+     binary="hooks",
+     shrink=True,
+     exhaustive={"quick": False, "thorough": False},
+     level_text="PARTIAL (drawing of the widgets other than the input line goes through the tui crate, which is not modelled; it is exercised at every terminal size by the headless hook only). Lean theorems on the model of the interactive session (tui/input/mod.rs, parser.rs, tui/mod.rs; every Rust operation that can panic - Vec::insert/remove, indexing, % by zero, usize subtraction, slicing at a byte offset, Buffer index - is an explicit `panic` outcome): handle_good / handle_ok / run_ok - for EVERY sequence of keys and EVERY answer of the path completer the line editor never panics and keeps the cursor inside the text, the history index inside the history and the completion index inside the completion list; render_ok / draw_input_ok / inputWidth_ge - the input line is drawn without a panic and inside its row at every field width >= 8, hence at every terminal size the layout guard admits (minimum sizes and sidebar width regenerated from interface.rs), whatever the text and cursor; session_never_panics / handleEvent_good - no sequence of key events makes the session panic unless a `load` command hits one of the translator/loader panics recorded under C06; parseCmd_wf - whatever line is typed, a parsed command carries a register index < 4, byte values < 256 and a cycle count < 2^64 (nothing is truncated); reg_dec_spec - `FC..FF = <digits>` for EVERY digit string: the denoted value if <= 255, no command otherwise; ctrl_keys / ctrl_other / enter_is_clock / enter_submits / exec_table / next_is_clocks / key_dismisses_note - the event dispatch: control keys = the library calls of the same name, Enter on an empty line = clock key, a submitted line = documented command or rejection with a notification quoting it, each command = the library setter of that name; session_refines_spec - seen from machine and notification every event does what the specification prescribes, given that grammar and documented language agree on the submitted line; cmd_forms_agree - that agreement by kernel evaluation on 69 documented/near-miss forms and all 4681 strings up to length 4 over an 8-character alphabet (a test, labelled as such). Tied to the code through a headless script driver inside the real binary (feature verif-hooks): injected key events go through the real handle_event, drawing through the real Interface into an in-memory backend",
+     technique="Lean 4 invariant proof by induction over key sequences (panic-outcome model of the editor, layout arithmetic and dispatch) + characterisation theorems for the nom command grammar + refinement to a token-based command specification + differential sessions through the real binary's headless hook (every key sequence up to a bound, all terminal sizes, command strings over a Unicode alphabet)",
+     rule="script ops executed by the real Tui inside the binary: (A) EVERY sequence of 3 (thorough: 4) keys over 16 keys (characters incl. multi-byte, Enter, Tab/BackTab with scripted completer answers, Backspace, Home/End, arrows, Delete) + one more key, full dump after each; (B) 300/3000 random editing sessions of 5-200 keys incl. wide, zero-width and four-byte characters, control chords, Esc/Insert/F-keys, dump after every (third) key, drawing at random sizes; (C) inputs of 30-300 characters with the cursor moved to every position, the input row compared cell by cell (symbols and highlight) at widths 76-250; (D) 6000/60000 command lines (documented forms x case x blanks x radix x boundary values 255/256, near misses, blank-only lines, random Unicode strings) + every string up to length 4 (5) over 8 characters: `cmd` = real nom parser vs model, `spec.cmd` = vs the documented language; (E) 250/2500 sessions that load programs, submit commands, press control keys / clock / next N: `spec.tmach` = machine dump and notification vs the specification after every event; (F) drawing the whole interface at a grid of / all 25 000 terminal sizes 1x1..250x100 from 6 session states (empty, text, long multi-byte text, notification, memory view with a loaded program, failed load): `spec.tnopanic`; `spec.tsafe` = cursor inside the text after every dump; distinct = distinct op lines",
+     explanation="float arguments outside `digits[.digits]` (signs, exponents, inf/nan) are outside the model: for them only `no panic` is checked (spec.cmdsafe)",
+     assumptions=["the path completer's file-system lookup is replaced by scripted answers in hooked builds (same slicing contract as rustyline's complete_path); its own code is not modelled",
+                  "unicode-width's table is not modelled: the cell-by-cell row comparison uses one-cell-wide and control characters; wide / zero-width characters are covered by the no-panic draws",
+                  "a program that hits C06's known translator/loader panics also panics the session when loaded with `load PATH` (same defect, recorded under C06); the generator loads other programs"],
+     )
